@@ -154,7 +154,7 @@ func zzServeQuiet(r *Router[*hnd], method, path string) *zzObs {
 		o.pattern = node.Pattern()
 	}
 	o.id = h.id
-	o.params = ctx
+	o.params = zzSnapshot(ctx)
 	_ = w
 	_ = req
 	return o
